@@ -1,16 +1,16 @@
-\* Sensitivity: the daemon drops main's exit status while standalone reports it (F12b): Transparency is expected to be VIOLATED.
+\* Sensitivity: fflush() only on the success path - the unterminated last line of a failing run never reaches the client: Transparency is expected to be VIOLATED.
 SPECIFICATION Spec
 CONSTANTS
   N = 3
-  Suite = "c17x"
+  Suite = "c17p"
   Verify = TRUE
   CrcModel = "atomic"
   IgnoreSigpipe = TRUE
   Cap = 2
-  Buffered = TRUE
+  Buffered = FALSE
   Gaps = "overlap"
-  DropExit = TRUE
-  FlushOnErr = TRUE
+  DropExit = FALSE
+  FlushOnErr = FALSE
   KeepData = TRUE
   ExternalProg <- NoExternal
   Emit = FALSE
